@@ -155,7 +155,18 @@ pub fn session(rng: &mut Rng) -> (Vec<String>, Vec<String>) {
         }
         let u = b + 1;
         let n1 = pick_name(rng);
-        let n2 = if rng.chance(1, 2) { n1.clone() } else { pick_name(rng) };
+        let n2 = match rng.below(12) {
+            0..=5 => n1.clone(),
+            // a different name that spells the written (escaped) form of the first: the two are distinct symbols
+            6 | 7 => match spell(&n1, false, false) {
+                Some(w) if w != n1 => {
+                    tags.push("name2:written-form-of-name1".into());
+                    w
+                }
+                _ => pick_name(rng),
+            },
+            _ => pick_name(rng),
+        };
         f.push(format!("(define s{u}a {})", mkstr(&n1), u = u));
         f.push(format!("(define s{u}b {})", mkstr(&n2), u = u));
         let (mut r1, t1) = route(rng, &n1, &format!("s{}a", u), &mut tags);
@@ -179,6 +190,15 @@ pub fn session(rng: &mut Rng) -> (Vec<String>, Vec<String>) {
                 3 => {
                     tags.push("via:vector".into());
                     *r = format!("(vector-ref (vector 0 {}) 1)", r);
+                }
+                4 => {
+                    // a one-element vector is the only holder of the symbol while garbage is made
+                    tags.push("via:box".into());
+                    *r = format!("(let ((bx (vector {}))) (junk 3) (vector-ref bx 0))", r);
+                }
+                5 => {
+                    tags.push("via:pair".into());
+                    *r = format!("(let ((bx (cons {} '()))) (junk 3) (car bx))", r);
                 }
                 _ => {}
             }
